@@ -1137,6 +1137,8 @@ void MatrixInversion(matrix *m, matrix *m_inv)
  */
 void MatrixPseudoinversion(matrix *m, matrix *m_inv)
 {
+  size_t i, j, k;
+  double smax, tol, v;
   matrix *U;
   matrix *S;
   matrix *V_T;
@@ -1145,29 +1147,28 @@ void MatrixPseudoinversion(matrix *m, matrix *m_inv)
   initMatrix(&V_T);
   SVD(m, U, S, V_T);
 
-  /*
-  puts("U");
-  PrintMatrix(U);
-  puts("S");
-  PrintMatrix(S);
-  puts("VT");
-  PrintMatrix(V_T);
-  */
+  /* A+ = V S+ U^T, where S+ inverts the singular values that are not zero */
+  smax = 0.f;
+  for(k = 0; k < S->row && k < S->col; k++){
+    if(S->data[k][k] > smax)
+      smax = S->data[k][k];
+  }
+  tol = smax*2.220446049250313e-16*((m->row > m->col) ? m->row : m->col);
 
-  matrix *Sinv;
-  NewMatrix(&Sinv, S->col, S->row);
-  MatrixInversion(S, Sinv);
-  DelMatrix(&S);
-
-  matrix *USinv;
-  NewMatrix(&USinv, U->row, Sinv->col);
-  MatrixDotProduct(U, Sinv, USinv);
+  ResizeMatrix(m_inv, m->col, m->row);
+  for(i = 0; i < m->col; i++){
+    for(j = 0; j < m->row; j++){
+      v = 0.f;
+      for(k = 0; k < S->row && k < S->col; k++){
+        if(S->data[k][k] > tol)
+          v += V_T->data[k][i]*U->data[j][k]/S->data[k][k];
+      }
+      m_inv->data[i][j] = v;
+    }
+  }
   DelMatrix(&U);
-  DelMatrix(&Sinv);
-  ResizeMatrix(m_inv, m->row, m->col);
-  MatrixDotProduct(USinv, V_T, m_inv);
+  DelMatrix(&S);
   DelMatrix(&V_T);
-  DelMatrix(&USinv);
 }
 
 
